@@ -1,7 +1,7 @@
 """Unit `global_cache`: GlobalCache<R> (cachelito-core/src/global_cache.rs) under the sequential projection
 (R1: locks erased, R2: receiver splitting) with the helper functions of utils.rs it calls."""
 from extract.rules import R, R4, R5, R1_TYPES
-from contracts.units.engine_common import (COMMON, wf_pre, get_ensures, incr_ensures, evict_requires, evict_ensures, insert_ensures, CFG_FRAME, insertm_requires, insertm_ensures)
+from contracts.units.engine_common import (COMMON, wf_pre, get_ensures, incr_ensures, evict_requires, evict_ensures, insert_ensures, CFG_FRAME, insertm_requires, insertm_ensures, memloop_spec)
 from contracts.units import utils as U
 
 G = 'cachelito-core/src/global_cache.rs'
@@ -68,20 +68,7 @@ UNIT = dict(
         fn('insert_with_memory', impl=IMPL_MEM, impl_rules=IMPL_RULES, rules=R4 + R5,
            requires=insertm_requires(M), ensures=insertm_ensures(M),
            loops={
-               0: dict(
-                   invariant=[
-                       ('wf', 'wf(self.map@, o@)'),
-                       ('cfg', 'self.limit == old(self).limit && self.max_memory == old(self).max_memory && self.policy == old(self).policy && self.ttl == old(self).ttl && self.frequency_weight == old(self).frequency_weight && self.stats == old(self).stats && self.max_memory == Some(max_mem)'),
-                       ('counters', 'freq_ok(self.map@)'),
-                       ('pre_facts', 'wf(old(self).map@, old(self).order@) && mem_total(old(self).map@.remove(s2s(key)), rm1(old(self).order@, s2s(key))) + value.mem() <= usize::MAX'),
-                       ('submap', 'forall|x: String| #[trigger] self.map@.contains_key(x) ==> (if x == s2s(key) { self.map@[x].value == value && self.map@[x].frequency == 0 } else { old(self).map@.contains_key(x) && self.map@[x] == old(self).map@[x] })'),
-                       ('total_bounded', 'mem_total(self.map@, o@) <= mem_total(old(self).map@.remove(s2s(key)), rm1(old(self).order@, s2s(key))) + value.mem()'),
-                       ('no_needless', 'mem_total(old(self).map@.remove(s2s(key)), rm1(old(self).order@, s2s(key))) + value.mem() <= max_mem ==> o@ == touch(old(self).order@, s2s(key)) && self.map@.dom() == old(self).map@.dom().insert(s2s(key))'),
-                       ('oldest_first', '(self.policy is FIFO || self.policy is LRU) ==> is_suffix(o@, touch(old(self).order@, s2s(key)))'),
-                       ('shrinks', 'o@.len() <= touch(old(self).order@, s2s(key)).len()'),
-                   ],
-                   ensures=[('fits', 'mem_total(self.map@, o@) <= max_mem')],
-                   decreases='o@.len()'),
+               0: memloop_spec(M, 'o'),
                1: dict(
                    invariant_except_break=[('nothing_popped', '!successfully_evicted && map_write@ == m_in && o@ == o_in')],
                    invariant=[('wf_in', 'wf(m_in, o_in) && o_in.len() > 0')],
